@@ -23,7 +23,7 @@ ASSUMPTIONS = ["exact rational timeline is the specification", "NoteData decodes
 MONITORS = ["hittable", "time_notes", "order_independence", "timing_data_reused"]
 REQUIRED = ["routine_tap_in_warp", "keysounded_tap_in_warp", "pause_in_warp_note", "non_tap_in_warp",
             "stop_inside_warp", "delay_inside_warp", "three_warps_one_union", "two_unhittable_notes_across_pause", "corpus",
-            "off_grid_note_right_after_a_pause"]
+            "off_grid_note_right_after_a_pause", "more_than_16_separate_warp_segments"]
 TICK = Fraction(1, 48)
 
 
